@@ -396,7 +396,7 @@ pub fn run() {
                 step += 1;
                 let h: usize = if f[1] == "-" { 0 } else { f[1].parse().unwrap() };
                 let kind = f[2];
-                mark(&format!("step {} begin {}", step, kind));
+                mark(&format!("step {} begin {} {}", step, kind, std::time::SystemTime::now().duration_since(std::time::UNIX_EPOCH).map(|d| d.as_nanos()).unwrap_or(0)));
                 checker_calls.store(0, Ordering::SeqCst);
                 checker_log.lock().unwrap().clear();
                 let fds_before = fds_under(&cfg.root);
